@@ -594,6 +594,44 @@ func c09Concurrent(args []string) error {
 				}
 			}
 		}
+		// files written at the same time: two STL streams and a 3MF of different models, against the files of the
+		// same renders done one after the other
+		{
+			dir, err := os.MkdirTemp("", "vh-c09c-")
+			if err == nil {
+				defer os.RemoveAll(dir)
+				type job struct {
+					key string
+					run func(path string)
+				}
+				jobs := []job{
+					{"sphere/uniform/41/stl", func(p string) { render.ToSTL(models[0].s, p, render.NewMarchingCubesUniform(41)) }},
+					{"union/octree/44/stl", func(p string) { render.ToSTL(models[1].s, p, render.NewMarchingCubesOctree(44)) }},
+					{"union/uniform/33/stl", func(p string) { render.ToSTL(models[1].s, p, render.NewMarchingCubesUniform(33)) }},
+				}
+				for i, j := range jobs {
+					p := filepath.Join(dir, fmt.Sprintf("ref%d.stl", i))
+					j.run(p)
+					emit(detObs{"det", j.key, fmt.Sprintf("sequential-ref rep=%d", rep), fileDigest(p), 0})
+				}
+				for round := 0; round < 3; round++ {
+					start := make(chan struct{})
+					for i, j := range jobs {
+						wg.Add(1)
+						go func(i int, j job) {
+							defer wg.Done()
+							<-start
+							j.run(filepath.Join(dir, fmt.Sprintf("c%d.stl", i)))
+						}(i, j)
+					}
+					close(start)
+					wg.Wait()
+					for i, j := range jobs {
+						emit(detObs{"det", j.key, fmt.Sprintf("concurrent-files round=%d rep=%d", round, rep), fileDigest(filepath.Join(dir, fmt.Sprintf("c%d.stl", i))), 0})
+					}
+				}
+			}
+		}
 		// concurrent octree renders of different models and resolutions; one of them is slow, so that
 		// the others run start to end while it is in the middle of its render
 		res = make([][]*sdf.Triangle3, 4)
